@@ -108,19 +108,41 @@ structure Result where
   outcome : Outcome
 deriving Repr, DecidableEq, Inhabited
 
-/-- `traverser.start` + `WalkAdv`: `budget = none` is a nil `*traversal.Budget` -/
-def run (rootCheck linkCheck : List Step) (avail : Cid → Bool) (budget : Option Int) : LT → Result
+/-- the walk below the root: on the traverser's own counter (`Progress{…, Budget: t.budget}`,
+    `shared = true`) or without any budget (no `Budget` field in the Progress literal) -/
+def walkKids (linkCheck : List Step) (avail : Cid → Bool) (shared : Bool) (kids : List LT) (b : Int) :
+    List Cid × Bool :=
+  if shared then
+    let r := travBL linkCheck avail kids b
+    (r.loads, r.exceeded)
+  else (travL avail kids, false)
+
+/-- `traverser.start` + `WalkAdv`: `budget = none` is a nil `*traversal.Budget`.
+    `rootCheckBeforeLoad`: the `if t.budget != nil {…}` block stands before
+    `t.linkSystem.Load(…, t.root, …)` (otherwise the root is loaded first and then checked);
+    `shared`: see `walkKids`.  Both are facts the translator extracts from traverser.go. -/
+def run (rootCheck linkCheck : List Step) (rootCheckBeforeLoad shared : Bool) (avail : Cid → Bool)
+    (budget : Option Int) : LT → Result
   | .node c kids =>
     match budget with
     | none =>
       if avail c then ⟨c :: travL avail kids, .ok⟩ else ⟨[c], .rootMissing⟩
     | some b =>
-      match runSteps rootCheck b with
-      | none => ⟨[], .budgetExceeded⟩
-      | some b' =>
+      if rootCheckBeforeLoad then
+        match runSteps rootCheck b with
+        | none => ⟨[], .budgetExceeded⟩
+        | some b' =>
+          if avail c then
+            let r := walkKids linkCheck avail shared kids b'
+            ⟨c :: r.1, if r.2 then .budgetExceeded else .ok⟩
+          else ⟨[c], .rootMissing⟩
+      else
         if avail c then
-          let r := travBL linkCheck avail kids b'
-          ⟨c :: r.loads, if r.exceeded then .budgetExceeded else .ok⟩
+          match runSteps rootCheck b with
+          | none => ⟨[c], .budgetExceeded⟩
+          | some b' =>
+            let r := walkKids linkCheck avail shared kids b'
+            ⟨c :: r.1, if r.2 then .budgetExceeded else .ok⟩
         else ⟨[c], .rootMissing⟩
 
 /-! ## budget selection vocabulary (values are uint64 in Go) -/
